@@ -81,6 +81,8 @@ def make_recorder():
             self.keep_values = False
             self.forced = None      # optional {(method): callable(args, kwargs, default) -> value}
             self.busy = False       # inside a recorded draw (numpy's own nested calls are not statements of the code)
+            self.fault_at = None    # fault injection: the k-th draw statement raises (an exception inside the seeded scope)
+            self.ndraws = 0
 
         def _frame(self):
             f = sys._getframe(2)
@@ -97,6 +99,7 @@ def make_recorder():
         def _draw(self, method, a, k, info):
             if self.busy:
                 return getattr(np.random.RandomState, method)(self, *a, **k)
+            self._maybe_fault()
             pre = rng_state_hash(self)
             self.busy = True
             try:
@@ -114,6 +117,11 @@ def make_recorder():
                     val = [int(x) for x in arr.reshape(-1).tolist()]
             self._rec(method, a, k, pre, info, val)
             return v
+
+        def _maybe_fault(self):
+            self.ndraws += 1
+            if self.fault_at is not None and self.ndraws == self.fault_at:
+                raise RuntimeError("injected fault inside the seeded scope")
 
         def randint(self, *a, **k):
             return self._draw("randint", a, k, self._frame())
@@ -139,6 +147,7 @@ def make_recorder():
         def choice(self, a0, *a, **k):
             if self.busy:
                 return np.random.RandomState.choice(self, a0, *a, **k)
+            self._maybe_fault()
             info = self._frame()
             pre = rng_state_hash(self)
             self.busy = True
@@ -209,8 +218,11 @@ def instrument_kernels():
 _KERNEL_HOOKS: dict = {}
 
 
-def run_call(mf, shape, acs, seed, keep_values=False, forced=None):
-    """One real generator call with a recording private stream.  Returns a JSON-able record."""
+def run_call(mf, shape, acs, seed, keep_values=False, forced=None, fault=None, thunk=None):
+    """One real generator call with a recording private stream.  Returns a JSON-able record.
+    `fault=k`: the k-th draw statement raises (exception inside the seeded scope).
+    `thunk(mf)`: run this instead of `mf(shape, return_acs, seed)` (e.g. a transform that calls the generator);
+    it returns a tensor or a list of tensors."""
     global _KERNEL_LOG
     import numpy as np
 
@@ -224,6 +236,8 @@ def run_call(mf, shape, acs, seed, keep_values=False, forced=None):
     rec.depth = 0
     rec.keep_values = keep_values
     rec.forced = forced
+    rec.fault_at = fault
+    rec.ndraws = 0
     _KERNEL_LOG = rec.log
     pre_priv = rng_state_hash(rec)
     pre_glob = global_snapshot()
@@ -232,16 +246,24 @@ def run_call(mf, shape, acs, seed, keep_values=False, forced=None):
     out = {"err": None}
     t0 = time.time()
     try:
-        m = mf(tuple(shape), return_acs=bool(acs), seed=seed)
-        arr = m.numpy()
-        out.update(mask=sha(arr.shape, str(arr.dtype), arr.tobytes()), shape=list(arr.shape), dtype=str(arr.dtype),
-                   sum=int(arr.sum()))
-        out["_array"] = arr
+        if thunk is not None:
+            ms = thunk(mf)
+            ms = ms if isinstance(ms, (list, tuple)) else [ms]
+            out["masks"] = [sha(m.numpy().shape, str(m.numpy().dtype), m.numpy().tobytes()) for m in ms]
+            out["mask"] = out["masks"][0]
+            out["sum"] = int(ms[0].sum())
+        else:
+            m = mf(tuple(shape), return_acs=bool(acs), seed=seed)
+            arr = m.numpy()
+            out.update(mask=sha(arr.shape, str(arr.dtype), arr.tobytes()), shape=list(arr.shape), dtype=str(arr.dtype),
+                       sum=int(arr.sum()))
+            out["_array"] = arr
     except Exception as e:  # noqa: BLE001 - canonicalised
         out["err"] = type(e).__name__
         out["errmsg"] = str(e)[:200]
     finally:
         _KERNEL_LOG = None
+        rec.fault_at = None
     out.update(log=rec.log, pre_priv=pre_priv, post_priv=rng_state_hash(rec), pre_glob=pre_glob,
                post_glob=global_snapshot(), secs=round(time.time() - t0, 4))
     rec.log = []
@@ -291,11 +313,13 @@ class WorkerFailure(Exception):
 class Worker:
     """A subprocess running the real code; `call` enforces a wall-clock budget per job."""
 
-    def __init__(self):
+    def __init__(self, extra_env: dict | None = None):
         self.p = None
+        self.extra_env = extra_env or {}
 
     def start(self):
         env = dict(os.environ)
+        env.update(self.extra_env)
         env["PYTHONPATH"] = str(HARNESS) + os.pathsep + env.get("PYTHONPATH", "")
         env.setdefault("PYTHONWARNINGS", "ignore")
         self.p = subprocess.Popen([sys.executable, str(pathlib.Path(__file__).resolve()), "--worker"],
@@ -318,7 +342,9 @@ class Worker:
                     raise WorkerFailure("worker died")
                 return json.loads(line)
             if self.p.poll() is not None:
-                raise WorkerFailure(f"worker exited with {self.p.returncode}")
+                rc = self.p.returncode
+                self.kill()
+                raise WorkerFailure(f"worker exited with {rc}")
 
     def call(self, mod: str, fn: str, args: dict, budget: float = 30.0):
         if self.p is None or self.p.poll() is not None:
